@@ -1363,4 +1363,63 @@ theorem roundSig_idem (P : Nat) (x : Rat) : roundSig P (roundSig P x) = roundSig
   exact roundSigP_idem _ (by split <;> omega) x
 
 
+
+theorem rhe_error_rat (n d : Nat) (hd : 0 < d) : |((rhe n d : Nat) : Rat) - (n : Rat) / (d : Rat)| ≤ 1 / 2 := by
+  have hdq : (0 : Rat) < (d : Rat) := by exact_mod_cast hd
+  obtain ⟨h1, h2⟩ := rhe_spec n d hd
+  have h1q : (2 : Rat) * ((rhe n d : Nat) * (d : Rat)) ≤ 2 * (n : Rat) + d := by exact_mod_cast h1
+  have h2q : (2 : Rat) * (n : Rat) ≤ 2 * ((rhe n d : Nat) * (d : Rat)) + d := by exact_mod_cast h2
+  have e : ((rhe n d : Nat) : Rat) - (n : Rat) / (d : Rat) = (((rhe n d : Nat) : Rat) * d - n) / d := by
+    field_simp
+  rw [e, abs_div, abs_of_pos hdq, div_le_iff₀ hdq, abs_le]
+  constructor <;> linarith
+
+/-- `%.Pg` is correctly rounded: the printed number is within half a unit of its last significant
+digit (`10^(X-P+1)`, `X` the decimal exponent of `|x|`) -/
+theorem roundSigP_error (P : Nat) (hP : 1 ≤ P) (x : Rat) (hx : x ≠ 0) :
+    |roundSigP P x - x| ≤ (10 : Rat) ^ (sciExp x.num.natAbs x.den - (P : Int) + 1) / 2 := by
+  have h10 : (10 : Rat) ≠ 0 := by norm_num
+  set n := x.num.natAbs with hn
+  set d := x.den with hd
+  set e : Int := sciExp n d - (P : Int) + 1 with he
+  have hpos := ten_zpow_pos e
+  obtain ⟨n', d', hd', hr, hv⟩ := rheShift_eq n d x.den_pos e
+  have herr := rhe_error_rat n' d' hd'
+  rw [← hr, hv] at herr
+  -- value of the decomposition
+  have hval : scale10 ((sci P n d).2 : Rat) ((sci P n d).1 - (P : Int) + 1) = ((rheShift n d e : Nat) : Rat) * (10 : Rat) ^ e := by
+    rw [scale10_eq_zpow]
+    unfold sci
+    simp only [← he]
+    split
+    · rename_i hc
+      simp only
+      rw [hc]
+      have : sciExp n d + 1 - (P : Int) + 1 = e + 1 := by rw [he]; ring
+      rw [this, zpow_add₀ h10, zpow_one]
+      have hp : ((10 ^ (P - 1) : Nat) : Rat) * 10 = ((10 ^ P : Nat) : Rat) := by
+        have : 10 ^ P = 10 ^ (P - 1) * 10 := by rw [← pow_succ]; congr 1; omega
+        rw [this]; push_cast; ring
+      rw [← hp]; ring
+    · rfl
+  have habs : |x| = (n : Rat) / (d : Rat) := (natAbs_div_den x).symm
+  have key : |((rheShift n d e : Nat) : Rat) * (10 : Rat) ^ e - abs x| ≤ (10 : Rat) ^ e / 2 := by
+    rw [habs]
+    have : ((rheShift n d e : Nat) : Rat) * (10 : Rat) ^ e - (n : Rat) / (d : Rat)
+        = (((rheShift n d e : Nat) : Rat) - (n : Rat) / (d : Rat) / (10 : Rat) ^ e) * (10 : Rat) ^ e := by
+      field_simp
+    rw [this, abs_mul, abs_of_pos hpos]
+    calc _ ≤ (1 / 2 : Rat) * (10 : Rat) ^ e := mul_le_mul_of_nonneg_right herr (le_of_lt hpos)
+      _ = (10 : Rat) ^ e / 2 := by ring
+  simp only [roundSigP, hx, if_false, ← hn, ← hd, hval]
+  by_cases hneg : x < 0
+  · simp only [hneg, if_true]
+    rw [abs_of_neg hneg] at key
+    have : -(((rheShift n d e : Nat) : Rat) * (10 : Rat) ^ e) - x = -(((rheShift n d e : Nat) : Rat) * (10 : Rat) ^ e - -x) := by ring
+    rw [this, abs_neg]; exact key
+  · simp only [hneg, if_false]
+    rw [abs_of_nonneg (not_lt.1 hneg)] at key
+    exact key
+
+
 end DS.Dec
